@@ -16,6 +16,9 @@ var IntMode bool
 // translate itself (set from x_*.go files); it returns nil when it cannot handle the case either.
 var intBinopExt func(op token.Token, k types.BasicKind, a, b *Term) value
 
+// intBinopPre is consulted first (exact simplifications from x_*.go files; nil = not handled).
+var intBinopPre func(op token.Token, k types.BasicKind, a, b *Term) value
+
 var IntSort = Sort{W: -1}
 
 func isIntSort(s Sort) bool { return s.W == -1 }
@@ -246,6 +249,11 @@ func intBinop(op token.Token, x, y value) value {
 	kx, _ := kindOf(x)
 	_, signed := kindWidth(kx)
 	a, b := intTermOf(x), intTermOf(y)
+	if intBinopPre != nil {
+		if v := intBinopPre(op, kx, a, b); v != nil {
+			return v
+		}
+	}
 	ti := func(t *Term) value { return mkIntVal(kx, wrapKind(kx, t)) }
 	switch op {
 	case token.ADD:
